@@ -250,6 +250,31 @@ func (c *Ctx) c13Counts(b BK, decodeTarget types.Object) {
 			continue
 		}
 		n, bad := 0, false
+		// local lists into which some path appends the iterated entries (snapshot form of Walk)
+		collectedIn := map[types.Object]bool{}
+		collectedVal := map[*pw.Val]bool{}
+		for _, p := range run.paths {
+			for _, g := range iterations(p) {
+				if !g.inner || !g.overData {
+					continue
+				}
+				for _, ev := range g.events {
+					if ev.Kind == pw.EvAssign && ev.Value != nil && ev.Value.Kind == pw.KAppend && ev.Obj != nil {
+						for _, el := range ev.Value.Elems {
+							for el != nil && (el.Kind == pw.KConv || el.Kind == pw.KAssert) {
+								el = el.Src
+							}
+							if el != nil && (el.Kind == pw.KRangeVal || el.Kind == pw.KParam && g.begin.Note == "Range") {
+								collectedIn[ev.Obj] = true
+								for x, i := ev.Value.Src, 0; x != nil && i < 8; x, i = x.Src, i+1 {
+									collectedVal[x] = true
+								}
+							}
+						}
+					}
+				}
+			}
+		}
 		if b.Sharded {
 			if _, ok := c.shardCoverage("R13.3", wname, run.paths, false); !ok {
 				bad = true
@@ -305,8 +330,25 @@ func (c *Ctx) c13Counts(b BK, decodeTarget types.Object) {
 				}
 				if cb == nil {
 					if g.overData {
-						r.Bad("R13.3", wname, "entry-not-visited", c.Pos(g.begin.Pos), "an iterated entry is not handed to the callback", shortTrace(p))
-						bad = true
+						// snapshot form: the iterated entry is appended to a local list that a later loop hands to the callback
+						collected := false
+						for _, ev := range g.events {
+							if ev.Kind == pw.EvAssign && ev.Value != nil && ev.Value.Kind == pw.KAppend && ev.Obj != nil {
+								for _, el := range ev.Value.Elems {
+									for el != nil && (el.Kind == pw.KConv || el.Kind == pw.KAssert) {
+										el = el.Src
+									}
+									if el != nil && (el.Kind == pw.KRangeVal || el.Kind == pw.KParam && g.begin.Note == "Range") {
+										collected = true
+										collectedIn[ev.Obj] = true
+									}
+								}
+							}
+						}
+						if !collected {
+							r.Bad("R13.3", wname, "entry-not-visited", c.Pos(g.begin.Pos), "an iterated entry is not handed to the callback", shortTrace(p))
+							bad = true
+						}
 					}
 					continue
 				}
@@ -316,7 +358,16 @@ func (c *Ctx) c13Counts(b BK, decodeTarget types.Object) {
 					for a != nil && (a.Kind == pw.KConv || a.Kind == pw.KAssert) {
 						a = a.Src
 					}
-					if !(a != nil && (a.Kind == pw.KRangeVal || a.Kind == pw.KParam && g.begin.Note == "Range")) {
+					fromCollected := func(v *pw.Val) bool {
+						for i := 0; v != nil && i < 8; i++ {
+							if v.Obj != nil && collectedIn[v.Obj] || collectedVal[v] {
+								return true
+							}
+							v = v.Src
+						}
+						return false
+					}
+					if !(a != nil && (a.Kind == pw.KRangeVal && (g.overData || fromCollected(a.Src)) || a.Kind == pw.KParam && g.begin.Note == "Range")) {
 						r.Bad("R13.3", wname, "walk-argument", c.Pos(cb.Pos), "the callback is not given the iterated stored entry", shortTrace(p))
 						bad = true
 					}
